@@ -29,16 +29,17 @@ def run(ck):
     thorough = ck.tier == "thorough"
     wops = ("Put", "Bcast", "Delete", "GC", "SetMode")
     wit = [dict(scenario="degraded-read", cat="c20s", ops=wops, modes=MODES, inflight=1),
-           dict(scenario="partial-removal", cat="c20s", ops=wops, modes=MODES, inflight=1)]
+           dict(scenario="partial-removal", cat="c20s", ops=wops, modes=MODES, inflight=1),
+           dict(scenario="two-copies-removed", cat="c20s", ops=wops + ("FailGet",), modes=MODES, inflight=1)]
     if thorough:
         wit += [dict(scenario="second-pass", cat="c20", ops=wops + ("FailGet",), modes=MODES, inflight=1),
                 dict(scenario="degraded-read", cat="c20s", ns=3, ops=wops, modes=MODES, inflight=1),
                 dict(scenario="partial-removal", cat="c20s", ns=3, ops=wops, modes=MODES, inflight=1)]
         gens = [dict(ns=ns, cat="c20g", ops=OPS, modes=MODES, genlen=gl, num=num, seed=ck.seed * 100 + ns * 10 + k, inflight=1)
-                for k, (ns, num, gl) in enumerate([(2, 1200, 24), (3, 500, 26), (2, 1200, 24), (3, 500, 26)])]
-        cfgs = ["Engine_c20_thorough.cfg", "Engine_c20_thorough3.cfg", "Engine_c20_quick_strict.cfg"]
-        ck.setcov("constants", "2 shards: plain (expiring) object + EC part + tombstone, epochs 0..2, modes rw/ro/dro, read faults; "
-                               "3 shards: object + tombstone, modes rw/ro/dro, read faults")
+                for k, (ns, num, gl) in enumerate([(2, 500, 24), (3, 250, 26)])]
+        cfgs = ["Engine_c20_thorough.cfg", "Engine_c20_thorough_exp.cfg", "Engine_c20_thorough3.cfg", "Engine_c20_quick_strict.cfg"]
+        ck.setcov("constants", "2 shards: plain object + EC part + tombstone, modes rw/ro/dro, read and write faults; expiring object + tombstone, "
+                               "epochs 0..2; 3 shards: object + tombstone, modes rw/dro, read faults")
     else:
         gens = [dict(ns=2, cat="c20g", ops=OPS, modes=MODES, genlen=20, num=60, seed=ck.seed * 100 + 20, inflight=1)]
         cfgs = ["Engine_c20_quick.cfg", "Engine_c20_quick_strict.cfg"]
